@@ -2,6 +2,8 @@
 // (parse/value.rs). `BinaryOp` is the real enum (a variant added or removed in
 // common.rs makes the extracted `precedence` fail to type-check: exit 2); expression
 // nodes are opaque.
+#[allow(unused_imports)]
+use std::cmp::Ordering;
 #[derive(Clone, Copy, PartialEq, Eq)]
 pub enum BinaryOp { SingleEq, Equal, NotEqual, GreaterThan, GreaterThanEqual, LessThan, LessThanEqual, Plus, Minus, Mul, Div, Rem, And, Or }
 
